@@ -116,10 +116,10 @@ Definition spec_ev (sp : list (string * db)) (sc : option string) (ev : sevent) 
   | SvRestart _ => (sp, None)
   end.
 
-Fixpoint spec_run (sp : list (string * db)) (sc : option string) (evs : list sevent) (os : list (option sout))
+Fixpoint sess_spec_run (sp : list (string * db)) (sc : option string) (evs : list sevent) (os : list (option sout))
   : list (string * db) * option string :=
   match evs, os with
-  | ev :: er, o :: orr => let '(sp1, sc1) := spec_ev sp sc ev o in spec_run sp1 sc1 er orr
+  | ev :: er, o :: orr => let '(sp1, sc1) := spec_ev sp sc ev o in sess_spec_run sp1 sc1 er orr
   | _, _ => (sp, sc)
   end.
 
@@ -135,12 +135,32 @@ Fixpoint created (evs : list sevent) (os : list (option sout)) : list string :=
   | _, _ => []
   end.
 
+(* the selected database after an event, and the statements acknowledged while n was selected *)
+Definition sel_ev (sc : option string) (ev : sevent) (o : option sout) : option string :=
+  match ev with
+  | SvStmt (SUse name) => match o with Some SOOk => Some (lower name) | _ => sc end
+  | SvRestart _ => None
+  | _ => sc
+  end.
+
 (* the logical store of database n: the cache of the open relation service if n is selected,
    the data file otherwise *)
 Definition is_sel (c : option string) (n : string) : bool :=
   match c with Some c' => String.eqb c' n | None => false end.
 Definition logical (c : option string) (n : string) (y : sys) : store :=
   if is_sel c n then mem y else disk y.
+
+Definition acked_here (n : string) (sc : option string) (ev : sevent) (o : option sout) : list stmt :=
+  match ev, o with
+  | SvStmt st, Some SOOk => if negb (is_session_stmt st) && is_sel sc n then [st] else []
+  | _, _ => []
+  end.
+
+Fixpoint stmts_while (n : string) (sc : option string) (evs : list sevent) (os : list (option sout)) : list stmt :=
+  match evs, os with
+  | ev :: er, o :: orr => acked_here n sc ev o ++ stmts_while n (sel_ev sc ev o) er orr
+  | _, _ => []
+  end.
 
 (* ====================== hypotheses on an event list, evaluated along the run ====================== *)
 Definition ev_hyp (s : sess) (ev : sevent) : bool :=
@@ -469,8 +489,8 @@ Qed.
 (* ====================== runs ====================== *)
 Lemma sess_run_inv evs : forall s sp sf os,
   SessInv s sp -> sess_hyps s evs = true -> sess_run s evs = (sf, os) ->
-  exists s', sf = Ok s' /\ SessInv s' (fst (spec_run sp (cur s) evs os)) /\
-             cur s' = snd (spec_run sp (cur s) evs os).
+  exists s', sf = Ok s' /\ SessInv s' (fst (sess_spec_run sp (cur s) evs os)) /\
+             cur s' = snd (sess_spec_run sp (cur s) evs os).
 Proof.
   induction evs as [|ev r IH]; intros s sp sf os HS Hh Hr.
   - cbn in Hr. inversion Hr; subst. exists s. cbn. auto.
@@ -478,7 +498,7 @@ Proof.
     destruct (sess_step_inv s sp ev HS Hh1) as (s1 & E1 & HS1 & Hc1).
     cbn [sess_run] in Hr. destruct (sess_step s ev) as [r1 o]. cbn [fst snd] in *. subst r1.
     destruct (sess_run s1 r) as [fin os'] eqn:Er. inversion Hr; subst fin os. clear Hr.
-    cbn [spec_run]. destruct (spec_ev sp (cur s) ev o) as [sp1 sc1]. cbn [fst snd] in *. subst sc1.
+    cbn [sess_spec_run]. destruct (spec_ev sp (cur s) ev o) as [sp1 sc1]. cbn [fst snd] in *. subst sc1.
     eapply IH; eauto.
 Qed.
 
@@ -496,6 +516,88 @@ Lemma sess_run_total evs sf os :
   sess_hyps init_sess evs = true -> sess_run init_sess evs = (sf, os) -> exists s, sf = Ok s.
 Proof.
   intros Hh Hr. destruct (sess_run_inv evs init_sess [] _ _ SessInv_init Hh Hr) as (s' & E & _). eauto.
+Qed.
+
+(* ---------- the specification database of n = the statements acknowledged while n was selected ---------- *)
+Lemma tspec_run_app a : forall d b, TableSpec.spec_run d (a ++ b) = TableSpec.spec_run (TableSpec.spec_run d a) b.
+Proof.
+  induction a as [|st r IH]; intros d b; cbn [app TableSpec.spec_run]; [reflexivity|].
+  destruct (spec_exec d st); apply IH.
+Qed.
+
+Lemma tspec_run_one d st : TableSpec.spec_run d [st] = spec_step d st.
+Proof. unfold spec_step. cbn [TableSpec.spec_run]. destruct (spec_exec d st); reflexivity. Qed.
+
+Lemma spec_ev_sel sp sc ev o : snd (spec_ev sp sc ev o) = sel_ev sc ev o.
+Proof. destruct ev as [[]| |]; reflexivity. Qed.
+
+Lemma acked_here_session n sc st o : is_session_stmt st = true -> acked_here n sc (SvStmt st) o = [].
+Proof. intros H. unfold acked_here. rewrite H. destruct o as [[]|]; reflexivity. Qed.
+
+Lemma spec_ev_get sp sc ev o n d0 :
+  sp_get n sp = Some d0 ->
+  sp_get n (fst (spec_ev sp sc ev o)) = Some (TableSpec.spec_run d0 (acked_here n sc ev o)).
+Proof.
+  intros Hd. destruct ev as [st| |clean]; [|cbn [spec_ev fst acked_here TableSpec.spec_run]; exact Hd ..].
+  destruct (is_session_stmt st) eqn:Hss.
+  - rewrite (acked_here_session _ _ _ _ Hss). cbn [TableSpec.spec_run].
+    destruct st; try discriminate; cbn [spec_ev fst]; try exact Hd.
+    destruct o as [[]|]; try exact Hd. rewrite sp_get_aget, aget_app, <- sp_get_aget, Hd. reflexivity.
+  - rewrite (spec_ev_plain _ _ _ _ Hss). cbn [fst]. unfold acked_here. rewrite Hss. cbn [negb andb].
+    destruct o as [[]|]; cbn [TableSpec.spec_run]; try exact Hd.
+    destruct sc as [c|]; [|exact Hd]. cbn [is_sel].
+    destruct (String.eqb_spec c n) as [->|Hcn].
+    + rewrite Hd, sp_get_set, String.eqb_refl, tspec_run_one. reflexivity.
+    + cbn [TableSpec.spec_run]. destruct (sp_get c sp) as [d|]; [|exact Hd].
+      rewrite sp_get_set. destruct (String.eqb_spec c n); [contradiction | exact Hd].
+Qed.
+
+Lemma spec_ev_absent sp sc ev o n :
+  sp_get n sp = None -> sc <> Some n ->
+  (sp_get n (fst (spec_ev sp sc ev o)) = None \/ sp_get n (fst (spec_ev sp sc ev o)) = Some []) /\
+  acked_here n sc ev o = [].
+Proof.
+  intros Hd Hsc. destruct ev as [st| |clean]; [|cbn [spec_ev fst acked_here]; auto ..].
+  destruct (is_session_stmt st) eqn:Hss.
+  - rewrite (acked_here_session _ _ _ _ Hss). split; [|reflexivity].
+    destruct st; try discriminate; cbn [spec_ev fst]; auto.
+    destruct o as [[]|]; auto. rewrite sp_get_aget, aget_app, <- sp_get_aget, Hd.
+    destruct (String.eqb (lower name) n); auto.
+  - rewrite (spec_ev_plain _ _ _ _ Hss). cbn [fst]. unfold acked_here. rewrite Hss. cbn [negb andb].
+    assert (Hsel : is_sel sc n = false).
+    { destruct sc as [c|]; [|reflexivity]. cbn. apply String.eqb_neq. congruence. }
+    rewrite Hsel. split; [|destruct o as [[]|]; reflexivity].
+    destruct o as [[]|]; auto. destruct sc as [c|]; auto. destruct (sp_get c sp) as [d|]; auto.
+    rewrite sp_get_set. destruct (String.eqb_spec c n) as [->|]; [congruence | auto].
+Qed.
+
+Lemma sess_run_stmts evs : forall s sp sf os n,
+  SessInv s sp -> sess_hyps s evs = true -> sess_run s evs = (sf, os) ->
+  match sp_get n sp with
+  | Some d0 => sp_get n (fst (sess_spec_run sp (cur s) evs os)) =
+               Some (TableSpec.spec_run d0 (stmts_while n (cur s) evs os))
+  | None => forall d, sp_get n (fst (sess_spec_run sp (cur s) evs os)) = Some d ->
+                      d = TableSpec.spec_run [] (stmts_while n (cur s) evs os)
+  end.
+Proof.
+  induction evs as [|ev r IH]; intros s sp sf os n HS Hh Hr.
+  - cbn in Hr. inversion Hr; subst. cbn [sess_spec_run stmts_while fst TableSpec.spec_run].
+    destruct (sp_get n sp) as [d0|] eqn:Ed; [reflexivity | intros d H; rewrite H in Ed; discriminate].
+  - cbn [sess_hyps] in Hh. apply andb_true_iff in Hh as [Hh1 Hh2].
+    destruct (sess_step_inv s sp ev HS Hh1) as (s1 & E1 & HS1 & Hc1).
+    cbn [sess_run] in Hr. destruct (sess_step s ev) as [r1 o]. cbn [fst snd] in *. subst r1.
+    destruct (sess_run s1 r) as [fin os'] eqn:Er. inversion Hr; subst fin os. clear Hr.
+    cbn [sess_spec_run stmts_while].
+    pose proof (spec_ev_sel sp (cur s) ev o) as Hsel.
+    pose proof (spec_ev_get sp (cur s) ev o n) as Hget. pose proof (spec_ev_absent sp (cur s) ev o n) as Habs.
+    destruct (spec_ev sp (cur s) ev o) as [sp1 sc1]. cbn [fst snd] in *. subst sc1. rewrite <- Hsel.
+    specialize (IH s1 sp1 _ _ n HS1 Hh2 Er).
+    destruct (sp_get n sp) as [d0|] eqn:Ed.
+    + rewrite (Hget d0 eq_refl) in IH. rewrite IH, tspec_run_app. reflexivity.
+    + assert (Hsc : cur s <> Some n).
+      { intros Hc. pose proof (sv_cur _ _ HS n Hc) as Hin. rewrite sp_get_aget in Ed. apply aget_None in Ed. contradiction. }
+      destruct (Habs eq_refl Hsc) as [[E|E] ->]; rewrite E in IH; cbn [app]; [exact IH|].
+      intros d Hd. rewrite IH in Hd. inversion Hd. reflexivity.
 Qed.
 
 (* ====================== 4. isolation ====================== *)
@@ -516,15 +618,18 @@ Qed.
 
 Theorem isolation evs s os :
   sess_hyps init_sess evs = true -> sess_run init_sess evs = (Ok s, os) ->
-  snd (spec_run [] None evs os) = cur s /\
-  map fst (dbs s) = map fst (fst (spec_run [] None evs os)) /\
-  forall n d, sp_get n (fst (spec_run [] None evs os)) = Some d ->
+  snd (sess_spec_run [] None evs os) = cur s /\
+  map fst (dbs s) = map fst (fst (sess_spec_run [] None evs os)) /\
+  forall n d, sp_get n (fst (sess_spec_run [] None evs os)) = Some d ->
+    d = TableSpec.spec_run [] (stmts_while n None evs os) /\
     exists y, get_db n (dbs s) = Some y /\ Rep (logical (cur s) n y) d /\
               forall t, is_sys t = false -> table_agrees (logical (cur s) n y) d t.
 Proof.
   intros Hh Hr. destruct (sess_run_inv evs init_sess [] _ _ SessInv_init Hh Hr) as (s' & E & HS & Hc).
   inversion E; subst s'. cbn [init_sess cur] in *. split; [symmetry; exact Hc|]. split; [apply (sv_keys _ _ HS)|].
-  intros n d Hd. destruct (SessInv_rep s _ n d HS Hd) as (y & Ey & HR & _).
+  intros n d Hd. split.
+  { pose proof (sess_run_stmts evs init_sess [] _ _ n SessInv_init Hh Hr) as X. cbn [sp_get init_sess cur] in X. apply X. exact Hd. }
+  destruct (SessInv_rep s _ n d HS Hd) as (y & Ey & HR & _).
   exists y. split; [exact Ey|]. split; [exact HR|]. intros t Ht. apply Rep_table_agrees; assumption.
 Qed.
 
@@ -624,9 +729,9 @@ Qed.
 
 (* the specification state has exactly one database per created name *)
 Lemma spec_run_keys evs : forall sp sc os,
-  map fst (fst (spec_run sp sc evs os)) = map fst sp ++ created evs os.
+  map fst (fst (sess_spec_run sp sc evs os)) = map fst sp ++ created evs os.
 Proof.
-  induction evs as [|ev r IH]; intros sp sc [|o orr]; cbn [spec_run created]; try (rewrite app_nil_r; reflexivity).
+  induction evs as [|ev r IH]; intros sp sc [|o orr]; cbn [sess_spec_run created]; try (rewrite app_nil_r; reflexivity).
   destruct (spec_ev sp sc ev o) as [sp1 sc1] eqn:Ev. rewrite IH, app_assoc. f_equal.
   replace sp1 with (fst (spec_ev sp sc ev o)) by (rewrite Ev; reflexivity). clear Ev sp1 sc1.
   destruct ev as [st| |clean]; [|cbn [spec_ev fst created1]; rewrite app_nil_r; reflexivity ..].
@@ -644,7 +749,7 @@ Definition stmt_bounded (s : sess) (st : stmt) : bool :=
   is_session_stmt st ||
   match cur s with
   | Some c => match get_db c (dbs s) with
-              | Some y => stmt_ok st && N.leb (nextFree (e_store (run_stmt (mem y) st))) OFFMAX
+              | Some y => np_hyp (mem y) st
               | None => true
               end
   | None => true
@@ -663,8 +768,7 @@ Proof.
   - cbn [orb] in Hb. rewrite (sess_stmt_plain _ _ Hss). destruct (cur s) as [c|] eqn:Ec; [|cbn; discriminate].
     destruct (sv_get_some s sp c HS (sv_cur _ _ HS c Ec)) as [y Ey]. rewrite Ey in *. cbn [snd].
     destruct (sv_dbs _ _ HS _ _ Ey) as (d & _ & [HR _] & _).
-    apply andb_true_iff in Hb as [Hok Hmax]. apply N.leb_le in Hmax.
-    pose proof (run_stmt_no_panic (mem y) d st HR Hok Hmax) as Hnp.
+    pose proof (run_stmt_no_panic (mem y) d st HR Hb) as Hnp.
     unfold exec. cbn [snd]. destruct (e_out (run_stmt (mem y) st)); cbn [sout_of]; congruence.
 Qed.
 
